@@ -43,6 +43,15 @@ PURE = {
     'PyBool_FromLong', 'PyList_New', 'PyModuleDef_Init', 'PyModule_AddObject',
     'PyType_FromModuleAndSpec', 'PyLong_AsLong', 'PyTuple_Size', 'PyDict_Size',
     'PyList_Append', 'PyErr_NoMemory', 'PyErr_BadInternalCall',
+    # plain accessors / libc: never run Python code
+    'PyUnicode_DATA', 'PyUnicode_GET_LENGTH', 'PyUnicode_KIND', 'PyUnicode_READY',
+    'PyUnicode_Compare', 'PyUnicode_CompareWithASCIIString', 'PyUnicode_AsUTF8',
+    'PyUnicode_CheckExact', 'Py_IS_TYPE', 'Py_REFCNT', 'Py_SIZE', 'Py_SET_TYPE',
+    'memcmp', 'strcmp', 'strlen', 'memcpy', 'PyLong_Check', 'PyList_Check',
+    'PyCallable_Check', 'PyTuple_CheckExact', 'PyDict_CheckExact', 'Py_Is',
+    'Py_IsNone', 'Py_NewRef', 'Py_XNewRef', 'PyTuple_GetItem', 'PyList_GET_ITEM',
+    'PyList_GetItem', 'PyList_SET_ITEM', 'PyList_Size', 'PyObject_GC_Del',
+    'PyObject_GC_New', 'PyErr_WarnEx', 'PyErr_GivenExceptionMatches',
 }
 NEW = {
     'PySequence_Tuple', 'PySequence_List', 'PyObject_CallMethodObjArgs',
@@ -52,9 +61,11 @@ NEW = {
     'PyObject_RichCompare', 'PyUnicode_FromString', 'PyTuple_Pack',
     'PyLong_FromLong', 'PyImport_ImportModule', 'PyObject_Str',
     'PyBool_FromLong', 'PyList_New', 'PyType_FromModuleAndSpec',
+    'Py_NewRef', 'Py_XNewRef',
 }
 BORROWED = {'PyDict_GetItem', 'PyTuple_GET_ITEM', 'PyDict_GetItemString',
-            'PyDict_GetItemWithError'}
+            'PyDict_GetItemWithError', 'PyTuple_GetItem', 'PyList_GET_ITEM',
+            'PyList_GetItem'}
 STEALS = {'PyTuple_SET_ITEM': 2}
 
 
